@@ -6,6 +6,8 @@
 //!   `w <hex text>`   arbitrary argument text through the real `Lexer` (`skip_blanks`, `token`): the fields
 //!                    of literal-only words or `none`; oracle: when literal-only, the real shell run of
 //!                    `probe <text>` yields the same fields
+//!   `d <hex text>`   the same for the arguments of a declaration utility (`typeset <text>`): `name=value` words
+//!                    are not subject to pathname expansion, tilde expansion is looked for after `=` and `:`
 //!   `c <codepoint>`  `char::is_whitespace`, `quoted(c).needs_quoting()`, `is_blank`, `is_token_delimiter_char`
 //!   `L <listing case>`  definition history in one virtual shell, listings printed, evaluated in a fresh one
 //!
@@ -171,6 +173,9 @@ mod listing {
             sc.push_str(&format!("unset -v {}\n", defaults.join(" ")));
         }
         let mut late = String::new();
+        // aliases are defined after everything else: an alias named like a command used in a function
+        // body (`:`) would otherwise be substituted into the definitions that follow it
+        let mut aliases = String::new();
         for op in case.split_whitespace().skip(1) {
             let f: Vec<&str> = op.split(':').collect();
             match f.as_slice() {
@@ -192,7 +197,7 @@ mod listing {
                         sc.push_str(&format!("typeset {}-- {}\n", attrs_opts(a), name));
                     }
                 }
-                ["l" | "lg", n, v] => sc.push_str(&format!("alias -- {}\n", sq(&format!("{}={}", dec_str(n)?, dec_str(v)?)))),
+                ["l" | "lg", n, v] => aliases.push_str(&format!("alias -- {}\n", sq(&format!("{}={}", dec_str(n)?, dec_str(v)?)))),
                 ["t", c, a] => sc.push_str(&format!("trap -- {} {}\n", sq(&dec_str(a)?), c)),
                 ["m", m] => sc.push_str(&format!("umask {m}\n")),
                 ["o", o, st] => late.push_str(&format!("set {}o {}\n", if *st == "1" { '-' } else { '+' }, o)),
@@ -202,6 +207,7 @@ mod listing {
                 _ => return None,
             }
         }
+        sc.push_str(&aliases);
         sc.push_str(&late);
         Some(sc)
     }
@@ -390,7 +396,8 @@ mod listing {
                     if matches!(*k, "V" | "X" | "R" | "T" | "O") {
                         if let Some(lines) = logical_lines(text) {
                             for l in lines {
-                                if !l.contains("=(") && !l.starts_with('#') && lexer_read_back(&l).is_none() {
+                                let decl = matches!(*k, "V" | "X" | "R");
+                                if !l.contains("=(") && !l.starts_with('#') && lexer_read_back_mode(&l, decl).is_none() {
                                     not_literal = true;
                                 }
                             }
@@ -476,11 +483,16 @@ mod listing {
                     ops.push(format!("a:{}:{}:{}", h(&name), if vals.is_empty() { ".".into() } else { vals.join(",") }, attrs));
                 }
                 5..=7 => {
-                    let name = if r.chance(1, 2) { ident(r) } else { weird(r, 4, false) };
+                    let mut name = if r.chance(1, 2) { ident(r) } else { weird(r, 4, false) };
                     if name.is_empty() {
                         continue;
                     }
-                    let value = weird(r, 8, true);
+                    let mut value = weird(r, 8, true);
+                    if r.chance(1, 25) {
+                        // both parts unquoted, `[` in the name and `]` in the value (known finding, marked `lg`)
+                        name = r.pick(&["[", "a[", "[a", "[]a"]).to_string();
+                        value = r.pick(&["]", "b]", "a]b", "ab]]"]).to_string();
+                    }
                     let bare = |s: &str| !yash_quote::quoted(s).needs_quoting();
                     let glob = bare(&name) && bare(&value) && name.contains('[') && value.contains(']');
                     ops.push(format!("{}:{}:{}", if glob { "lg" } else { "l" }, h(&name), h(&value)));
@@ -508,7 +520,7 @@ mod listing {
     }
 
     pub fn run_generated(o: &Opts) {
-        let n = if o.thorough() { 20_000 } else { 600 };
+        let n = if o.thorough() { 20_000 } else { 1_500 };
         let mut rng = Rng::new(o.seed ^ 0xC07_3);
         for k in 0..n {
             let mut r = rng.fork();
@@ -700,16 +712,40 @@ fn field_of(word: &Word) -> Option<String> {
         return None;
     }
     for (i, u) in w.units.iter().enumerate() {
-        if is_lit(u, '[') && parts[i + 1..].iter().any(|p| p.contains(']')) {
+        // a quoted `]` never closes a bracket expression
+        if is_lit(u, '[') && w.units[i + 1..].iter().any(|u| is_lit(u, ']')) {
             return None;
         }
     }
     Some(parts.concat())
 }
 
+/// `determine_expansion_mode` of yash-syntax/src/parser/simple_command.rs for an argument of a declaration
+/// utility: a word `name=value` whose name part consists of unquoted literals is expanded in `Single` mode
+/// (no pathname expansion) with tilde expansions parsed after the `=` and after each later colon.
+fn field_of_decl(word: &Word) -> Option<String> {
+    let eq = word.units.iter().position(|u| is_lit(u, '='));
+    if let Some(eq) = eq {
+        let name_literal = eq > 0
+            && word.units[..eq].iter().all(|u| matches!(u, WordUnit::Unquoted(TextUnit::Literal(_))));
+        if name_literal {
+            let mut w = word.clone();
+            w.parse_tilde_everywhere_after(eq + 1);
+            let parts: Vec<String> = w.units.iter().map(unit_chars).collect::<Option<_>>()?;
+            return Some(parts.concat());
+        }
+    }
+    field_of(word)
+}
+
 /// What the parser's token loop does for the arguments of a simple command:
 /// `skip_blanks_and_comment` then `token` — with a comment or an operator reported as `None`.
 fn lexer_read_back(text: &str) -> Option<Vec<String>> {
+    lexer_read_back_mode(text, false)
+}
+
+/// `decl`: the first word is the name of a declaration utility (`typeset`, `export`, `readonly`)
+fn lexer_read_back_mode(text: &str, decl: bool) -> Option<Vec<String>> {
     let mut lexer = Lexer::with_code(text);
     let mut fields = vec![];
     loop {
@@ -721,6 +757,7 @@ fn lexer_read_back(text: &str) -> Option<Vec<String>> {
         }
         let token = lexer.token().now_or_never()?.ok()?;
         match token.id {
+            TokenId::Token(_) if decl && !fields.is_empty() => fields.push(field_of_decl(&token.word)?),
             TokenId::Token(_) => fields.push(field_of(&token.word)?),
             TokenId::EndOfInput => break,
             _ => return None,
@@ -738,7 +775,7 @@ fn run_w(texts: &[String]) {
             // Known defect outside this property (C06, parser totality): `${` at the end of input makes
             // `Lexer::braced_param` panic (`peek_char().await?.unwrap()`).  The text is not literal-only
             // either way, so the panic is reported as `none` here; any other panic stays `PANIC`.
-            if o.starts_with("PANIC") && t.contains("${") {
+            if o.starts_with("PANIC") && t.replace("\\\n", "").contains("${") {
                 masked += 1;
                 "none".to_string()
             } else {
@@ -762,6 +799,21 @@ fn run_w(texts: &[String]) {
     }
     for (i, t) in texts.iter().enumerate() {
         emit(&format!("w {}", enc_str(t)), &obs[i], &oracle[i]);
+    }
+}
+
+/// `d` leg: like `w`, the text being the arguments of the declaration utility `typeset`
+fn run_d(texts: &[String]) {
+    for t in texts {
+        let o = guarded(|| {
+            let f = lexer_read_back_mode(&format!("typeset {t}"), true).map(|mut f| {
+                f.remove(0);
+                f
+            });
+            show_fields(&f)
+        });
+        let o = if o.starts_with("PANIC") && t.replace("\\\n", "").contains("${") { "none".to_string() } else { o };
+        emit(&format!("d {}", enc_str(t)), &o, "-");
     }
 }
 
@@ -799,6 +851,10 @@ fn run_fixed(case: &str) {
             Some(s) => run_w(&[s]),
             None => emit(case, "bad-case", "-"),
         },
+        ["d", t] => match dec_str(t) {
+            Some(s) => run_d(&[s]),
+            None => emit(case, "bad-case", "-"),
+        },
         ["c", t] => match t.parse() {
             Ok(n) => run_c(n),
             Err(_) => emit(case, "bad-case", "-"),
@@ -834,10 +890,10 @@ fn main() {
             k += 1;
         }
     };
-    enumerate(&full, if thorough { 3 } else { 2 }, |s| push(s, &mut strings));
+    enumerate(&full, 3, |s| push(s, &mut strings));
     enumerate(CORE, if thorough { 4 } else { 3 }, |s| push(s, &mut strings));
     let mut rng = Rng::new(o.seed ^ 0xC07);
-    for _ in 0..(if thorough { 100_000 } else { 2_000 }) {
+    for _ in 0..(if thorough { 100_000 } else { 5_000 }) {
         let mut r = rng.fork();
         let alpha: &[char] = if r.chance(1, 2) { CORE } else { &full };
         push(random_string(&mut r, alpha, 40), &mut strings);
@@ -863,6 +919,19 @@ fn main() {
         k += 1;
     }
     run_w(&texts);
+
+    // ---- d leg: arguments of a declaration utility
+    let mut texts: Vec<String> = vec![];
+    let mut rng = Rng::new(o.seed ^ 0xC07_4);
+    const DECLA: &[char] = &['=', '=', '~', ':', '[', ']', '*', '\'', '"', '\\', ' ', 'a', '/', '$'];
+    for k in 0..(if thorough { 100_000 } else { 4_000 }) {
+        let mut r = rng.fork();
+        let s = random_string(&mut r, DECLA, 10);
+        if mine(k) {
+            texts.push(s);
+        }
+    }
+    run_d(&texts);
 
     // ---- c leg: every code point in thorough tier
     let top: u32 = if thorough { 0x110000 } else { 0x3100 };
